@@ -71,6 +71,7 @@ func cmdVisStress(c Cmd) (interface{}, error) {
 		return out
 	}
 	diag := c.str("diag")
+	newCols := c.boolean("new_cols")
 	verifhook.Set(func(point string, kv ...any) {
 		if point == "q.pull.check" {
 			return
@@ -143,7 +144,12 @@ func cmdVisStress(c Cmd) (interface{}, error) {
 				var sb strings.Builder
 				for k := 0; k < n; k++ {
 					id := first + int64(k)
-					fmt.Fprintf(&sb, "{\"index\":{\"_index\":%q}}\n{\"id\":%d,\"g\":%d,\"v\":%d,\"timestamp\":%d}\n", s.name, id, id%3, id, 1700000000000+id*10)
+					if newCols {
+						// a new column name every few events: flushes keep adding names to the open segment's column table
+						fmt.Fprintf(&sb, "{\"index\":{\"_index\":%q}}\n{\"id\":%d,\"g\":%d,\"v\":%d,\"c%d\":%d,\"timestamp\":%d}\n", s.name, id, id%3, id, id/7, id, 1700000000000+id*10)
+					} else {
+						fmt.Fprintf(&sb, "{\"index\":{\"_index\":%q}}\n{\"id\":%d,\"g\":%d,\"v\":%d,\"timestamp\":%d}\n", s.name, id, id%3, id, 1700000000000+id*10)
+					}
 				}
 				_, _, err := eswriter.HandleBulkBody([]byte(sb.String()), nil, 0, 0, false)
 				if err != nil {
